@@ -4,6 +4,7 @@ import Kitoken.Spec.Process
 import Kitoken.Spec.Decoder
 import Kitoken.Spec.Pieces
 import Kitoken.Spec.UnigramCheck
+import Kitoken.Spec.Split
 namespace Kitoken.Driver
 
 open Kitoken Std
@@ -231,16 +232,56 @@ def handleDec (st : State) (args : List String) (impl : List String) : String :=
     | _, _, _ => "BAD-OP"
   | _ => "BAD-OP"
 
-def handleSplit (args : List String) (_impl : List String) : String :=
+/-- Decidable versions of the C10 predicates, for verdicts. -/
+def orderedB (len : Nat) : Nat → Ranges → Bool
+  | from_, [] => from_ ≤ len
+  | from_, (s, e) :: rest => from_ ≤ s && s ≤ e && orderedB len e rest
+
+def tilesB (len : Nat) : Nat → Ranges → Bool
+  | from_, [] => from_ == len
+  | from_, (s, e) :: rest => s == from_ && s ≤ e && tilesB len e rest
+
+def alignedB (text : Bytes) (rs : Ranges) : Bool := rs.all fun (s, e) => isBoundary text s && isBoundary text e
+
+/-- C10 verdict on the ranges the implementation returned for one split (or a chain). -/
+def splitVerdict (ext : SplitExt) (steps : List Split) (t : Bytes) (out : Ranges) : String :=
+  if !orderedB t.length 0 out then "FAILS not-ordered"
+  else if !alignedB t out then "FAILS not-char-aligned"
+  else match steps with
+    | [.pattern p b] =>
+      if t.isEmpty then (if out.isEmpty then "HOLDS" else "FAILS empty-text") else
+      match splitPattern ext t p with
+      | none => "HOLDS-NA"
+      | some ms =>
+        let expect : Ranges := match b with
+          | .matches => ms
+          | .remove => Spec.gapsSpec t.length 0 ms
+          | .isolate => Spec.isolateSpec t.length 0 ms
+          | .merge => Spec.isolateSpec t.length 0 (Spec.fuseAdjacent ms)
+          | .mergeLeft => Spec.mergeLeftSpec t.length 0 ms
+          | .mergeRight => Spec.mergeRightSpec t.length ms
+        let tiling := match b with
+          | .matches | .remove => true
+          | _ => tilesB t.length 0 out
+        if !tiling then "FAILS not-a-tiling"
+        else if expect != out then "FAILS grouping"
+        else "HOLDS"
+    | _ => "HOLDS"
+
+def handleSplit (args : List String) (impl : List String) : String :=
   let (args, tab) := splitOracle args
   match args with
   | [steps, text] =>
     match parseSteps parseSplit steps, parseHex text with
     | some steps, some t =>
-      let model := match configSplit (mkExt tab).split steps t with
+      let ext := (mkExt tab).split
+      let model := match configSplit ext steps t with
         | none => "MISS split"
         | some rs => s!"OK {showRanges rs}"
-      s!"{model} || HOLDS-NA"
+      let verdict := match impl with
+        | ["OK", rs] => (match parseRanges rs with | some out => splitVerdict ext steps t out | none => "NO-VERDICT")
+        | _ => "FAILS not-total"
+      s!"{model} || {verdict}"
     | _, _ => "BAD-OP"
   | _ => "BAD-OP"
 
